@@ -78,7 +78,7 @@ def tail_aligned_map(cases, jobs, res):
     return out
 
 
-def canonical_ops(chk, n_random, every, nvalues, rng, want=("encode",), overfill=False, sanitize=False, k=2):
+def canonical_ops(chk, n_random, every, nvalues, rng, want=("encode",), overfill=False, sanitize=False, k=2, fresh=False):
     """schemas -> python encodings -> C++ decode ops on the canonical bytes (little with '<',
     big with '>'). returns (cases, jobs, pyres, cppres, tail_ok) and the list of records
     (i, vi, endian, input_hex, op_result)."""
@@ -128,6 +128,12 @@ def canonical_ops(chk, n_random, every, nvalues, rng, want=("encode",), overfill
             # canonical bytes cannot produce when C++ and wire layout differ): value index -1
             index[(j["id"], len(ops))] = (-1, e, h)
             ops.append(["decode", e, h])
+        if fresh:
+            # objects that never went through the decoder: default-constructed, with 0 / 1 / 2 elements in every vector
+            # (value index -2); they exist whether or not the decoder accepts the canonical bytes
+            for e, n in (("little", 0), ("big", 1), ("little", 2)):
+                index[(j["id"], len(ops))] = (-2, "fresh", "%s:%d" % (e, n))
+                ops.append(["fresh", e, n])
         if ops:
             cj.append({"id": j["id"], "schema": j["schema"], "text": j["text"], "root": j["root"], "ops": ops})
     cres = cpprun.run_full(cj, sanitize=sanitize, timeout=300)
@@ -149,6 +155,8 @@ def case_of(cases, jobs, i, vi, extra=None):
     stream, label, t = cases[i]
     d = {"stream": stream, "label": label, "schema_text": S.to_prophy(t), "schema": t, "root": t[1],
          "value": jobs[i]["values"][vi] if vi >= 0 else None}
+    if vi == -2:
+        d["object"] = "default-constructed C++ object, every vector member grown by n elements (op fresh <endianness>:<n>)"
     if extra:
         d.update(extra)
     return d
